@@ -1,6 +1,7 @@
 import ScnVerif.Lemmas.XyeText
 import ScnVerif.Lemmas.XyeNumbers
 import ScnVerif.Lemmas.XyeDigits
+import ScnVerif.Lemmas.XyeParser
 import ScnVerif.Gen.Xye
 import Mathlib.Tactic.Ring
 import Mathlib.Tactic.Linarith
@@ -30,8 +31,9 @@ correspondence run compares with the real functions text-for-text and bit-for-bi
   `print_parse_id_binary64`, `formatE18_error` (19 digits within `½·10^-18` relative),
   `formatE18_decodes` (the parser's tokenizer inverts the renderer), `zeros_back`,
   `numbersBack_gBack` (the former hypothesis `NumbersBack` now holds outright),
-  `numbers_back_partial` / `coord_value_bit_exact_partial`: every finite bit pattern comes back,
-  under the one remaining hypothesis `ParserNearest` (rounding core of the parser).
+  `nearestBits_of_close`, `parser_nearest` (the rounding core of the parser: proved),
+  `numbers_back`, `coord_value_bit_exact`, `xye_roundtrip_fileobj`: every finite bit pattern comes
+  back bit for bit — no hypothesis left at the number level.
 -/
 namespace ScnVerif.Props.C15
 open ScnVerif ScnVerif.Xye
@@ -559,12 +561,13 @@ theorem zeros_back (b : Nat) (hb : b < 2 ^ 64) (hfin : (decode b).2.1 ≠ 2047) 
 
 /-! ## what remains of the number-level round trip -/
 
-/-- **(3), not proved — hypothesis**: the rounding core of the model's parser (`litBits`, i.e.
+/-- **(3)** (proved below as `parser_nearest`; the `_partial` theorems that take it as a
+hypothesis are kept under their names): the rounding core of the model's parser (`litBits`, i.e.
 `nearestBits` with `binExpFrom` and `roundHalfEven`) maps a decimal `D·10^(k-18)` that is within
 `½·10^-18` relative of the finite non-zero binary64 `b` back to the bit pattern `b`.
 By `binary64_gap` that decimal is closer to `b` than to any other binary64 number (this is
 `print_parse_id_binary64`), so the hypothesis says exactly that `nearestBits` returns the nearest
-binary64; it is validated on every sample by the correspondence run. -/
+binary64. -/
 def ParserNearest : Prop :=
   ∀ (b : Nat) (D : Nat) (k : Int), b < 2 ^ 64 → (decode b).2.1 ≠ 2047 → sigOf b ≠ 0 →
     10 ^ 18 ≤ D → D < 10 ^ 19 →
@@ -643,6 +646,60 @@ theorem coord_value_bit_exact_partial (hN : ParserNearest) (sqrt sq : Nat → Na
     (backRow gBack sqrt sq r).1 = r.1 ∧ (backRow gBack sqrt sq r).2.1 = r.2.1 :=
   ⟨gBack_finite hN r.1 hx.1 hx.2, gBack_finite hN r.2.1 hy.1 hy.2⟩
 
+
+/-! ## the parser's rounding, and the unconditional number-level round trip -/
+
+/-- **(3a)** the exponent search of the parser brackets the value: `2^52 ≤ v/2^E < 2^53`, or
+`E = -1074` with only the upper bound (for every positive rational below `2^1025`) -/
+theorem binExp_brackets (num den : Nat) (hden : 0 < den) (hhi : (num : ℝ) / den < 2 ^ 1025) :
+    -1074 ≤ binExp num den ∧ (num : ℝ) / den / (2 : ℝ) ^ binExp num den < 2 ^ 53 ∧
+      (2 ^ 52 ≤ (num : ℝ) / den / (2 : ℝ) ^ binExp num den ∨ binExp num den = -1074) :=
+  Xye.binExp_spec num den hden hhi
+
+/-- **(3b) the parser's rounding**: a positive rational within an eighth of a unit in the last
+place of the canonical binary64 `m·2^e` (normal `2^52 ≤ m < 2^53`, or subnormal `m < 2^52`,
+`e = -1074`; also just below a binade boundary) is mapped by `nearestBits` to the exponent and
+fraction fields of exactly that number -/
+theorem nearestBits_of_close (num den : Nat) (hden : 0 < den) (m : Nat) (e : Int) (hm : m < 2 ^ 53)
+    (he : -1074 ≤ e) (he2 : e ≤ 971) (hcanon : 2 ^ 52 ≤ m ∨ e = -1074)
+    (hclose : |(num : ℝ) / den - (m : ℝ) * (2 : ℝ) ^ e| ≤ 1 / 8 * (2 : ℝ) ^ e) :
+    nearestBits num den = packBits m e :=
+  Xye.nearestBits_of_close num den hden m e hm he he2 hcanon hclose
+
+/-- **(3) `parser_nearest`**: the last hypothesis of the number-level round trip holds -/
+theorem parser_nearest : ParserNearest :=
+  fun b D k hb hfin hnz h1 h2 herr => Xye.litBits_of_close b D k hb hfin hnz h1 h2 herr
+
+/-- **(4) `numbers_back`**: every finite binary64 bit pattern survives printing with `%.18e` and
+parsing, in the model, bit for bit — no hypothesis left -/
+theorem numbers_back (b : Nat) (hb : b < 2 ^ 64) (hfin : (decode b).2.1 ≠ 2047) :
+    parseDecimal (formatE18 b) = some b := numbers_back_partial parser_nearest b hb hfin
+
+theorem gBack_finite_eq (b : Nat) (hb : b < 2 ^ 64) (hfin : (decode b).2.1 ≠ 2047) : gBack b = b :=
+  gBack_finite parser_nearest b hb hfin
+
+/-- coordinates and values of finite rows come back bit for bit -/
+theorem coord_value_bit_exact (sqrt sq : Nat → Nat) (r : Nat × Nat × Nat)
+    (hx : r.1 < 2 ^ 64 ∧ (decode r.1).2.1 ≠ 2047) (hy : r.2.1 < 2 ^ 64 ∧ (decode r.2.1).2.1 ≠ 2047) :
+    (backRow gBack sqrt sq r).1 = r.1 ∧ (backRow gBack sqrt sq r).2.1 = r.2.1 :=
+  coord_value_bit_exact_partial parser_nearest sqrt sq r hx hy
+
+/-- **the C15 round trip of the model, end to end**: for every header (file objects) and every
+`n ≥ 1` rows of finite numbers, loading the saved text gives `n` rows whose coordinate and value are
+the bit patterns written, and whose third entry is `sq (gBack (sqrt v))` -/
+theorem xye_roundtrip_fileobj (sqrt sq : Nat → Nat) (header : List Char) (rows : List (Nat × Nat × Nat))
+    (hrows : rows ≠ [])
+    (hfin : ∀ r ∈ rows, (r.1 < 2 ^ 64 ∧ (decode r.1).2.1 ≠ 2047) ∧ (r.2.1 < 2 ^ 64 ∧ (decode r.2.1).2.1 ≠ 2047)) :
+    ∃ back, loadText parseDecimal sq false (saveText formatE18 sqrt header rows) = .ok back ∧
+      back.length = rows.length ∧
+      ∀ i (h1 : i < back.length) (h2 : i < rows.length),
+        (back[i]).1 = (rows[i]).1 ∧ (back[i]).2.1 = (rows[i]).2.1 := by
+  obtain ⟨back, hb, hlen, hmap⟩ := rows_any_n_fileobj_concrete sqrt sq header rows hrows
+  refine ⟨back, hb, hlen, ?_⟩
+  intro i h1 h2
+  subst hmap
+  simp only [List.getElem_map]
+  exact coord_value_bit_exact sqrt sq rows[i] (hfin _ (List.getElem_mem h2)).1 (hfin _ (List.getElem_mem h2)).2
 
 /-! ## header rewriting statements of `save_xye` (regenerated from the source on every run) -/
 
